@@ -270,3 +270,22 @@ class Report:
         with open(os.path.join(VERIF, "evidence", self.prop + ".json"), "w") as fh:
             json.dump(ev, fh, indent=1, default=str)
         return rc
+
+
+def validate_lines(w, module, cfg, lines, heap="4g", timeout=1800, tracefile="trace.ndjson"):
+    """Trace validation for traces whose lines are judged independently (the Trace spec keeps going
+    and collects the set `bad` of rejected line numbers).  Returns (bad_indices_0based, TlcResult)."""
+    write_ndjson(os.path.join(w, tracefile), lines)
+    vp = os.path.join(w, "verdict.json")
+    if os.path.exists(vp):
+        os.remove(vp)
+    r = tlc(w, module, cfg, workers=1, heap=heap, timeout=timeout)
+    if not os.path.exists(vp) or not r.ok:
+        raise Infra("trace validation %s gave no verdict:\n%s" % (module, r.tail(50)))
+    v = json.load(open(vp))
+    if v["consumed"] != v["total"] or v["total"] != len(lines):
+        raise Infra("trace validation %s consumed %s of %s lines:\n%s" % (module, v["consumed"], len(lines), r.tail(30)))
+    bad = v["bad"]
+    if isinstance(bad, dict):
+        bad = list(bad.values())
+    return sorted(int(b) - 1 for b in bad), r
